@@ -319,3 +319,25 @@ Definition begin_copy_glob (orc : bytes -> res) (c : cfg) (slashfix : bool) (dst
 Definition copy_plan_glob (orc : bytes -> res) (c : cfg) (slashfix : bool) (dst dir : bytes)
            (listing : list (bytes * node)) (fs0 : fsT) : list op :=
   fst (fst (snd (begin_copy_glob orc c slashfix dst dir listing fs0))).
+
+(* ---- a variant that is NOT the code: the `symlinks` set created afresh for every top-level source
+   (seeded change C13-e); kept only to show that the set must span the whole call ------------------ *)
+Fixpoint copy_tops_persrc (rec : node -> bytes -> state -> result) (dst : bytes) (isd : bool)
+         (srcs : list (bytes * node)) (s : state) : result :=
+  match srcs with
+  | [] => ([], s, None)
+  | e :: rest =>
+      let dstfile := if isd then pjoin dst (fst e) else dst in
+      let '(o1, s1, r1) := rec (snd e) dstfile (fst s, []) in
+      match r1 with
+      | Some x => (o1, s1, Some x)
+      | None => let '(o2, s2, r2) := copy_tops_persrc rec dst isd rest s1 in (o1 ++ o2, s2, r2)
+      end
+  end.
+
+Definition copy_plan_persrc (orc : bytes -> res) (c : cfg) (dst : bytes) (srcs : list (bytes * node))
+           (fs0 : fsT) : list op :=
+  let isd := res_dir (resolve orc fs0 dst) in
+  let o0 := OIsdir dst isd (thru_of fs0 dst true) in
+  if (1 <? Z.of_nat (length srcs)) && negb isd then [o0]
+  else o0 :: fst (fst (copy_tops_persrc (copy_node orc c (S (srcs_size srcs))) dst isd srcs (fs0, []))).
